@@ -318,6 +318,29 @@ func c09Faults() []c09Fault {
 				}
 			}
 		}},
+		{Class: "load-error", Variant: "type-error-in-last-package", Levels: []string{""}, Apply: func(b *c09Base, _ string, _ *simrt.Plan) {
+			i := len(b.proj.Pkgs) - 1
+			if i == b.target {
+				i--
+			}
+			b.proj.Pkgs[i].Files[0].Extra += "\nvar _ string = 42\n"
+		}},
+		{Class: "load-error", Variant: "syntax-error-in-last-package", Levels: []string{""}, Apply: func(b *c09Base, _ string, _ *simrt.Plan) {
+			i := len(b.proj.Pkgs) - 1
+			if i == b.target {
+				i--
+			}
+			b.proj.Pkgs[i].Files[0].Extra += "\ntype broken interface {\n"
+		}},
+		{Class: "load-error", Variant: "all-files-excluded-by-build-constraint", Levels: []string{""}, Apply: func(b *c09Base, _ string, _ *simrt.Plan) {
+			b.proj.Pkgs = append(b.proj.Pkgs, world.Pkg{Dir: "excluded", Name: "excluded", Files: []world.SrcFile{{Name: "only.go", BuildTag: "neverset", Ifaces: []world.Iface{{Name: "Hidden", Methods: []int{7}}}}}})
+			b.proj.Config.Sub("packages").Sub(c09Mod + "/excluded").Sub("config").Set("all", true)
+		}},
+		{Class: "missing-interface", Variant: "declared-only-in-test-file", Levels: []string{""}, Apply: func(b *c09Base, _ string, _ *simrt.Plan) {
+			q := b.tpkg()
+			b.proj.Aux[q.Dir+"/only_test.go"] = "package " + q.Name + "\n\ntype OnlyInTest interface{ M() }\n"
+			b.proj.Config.Sub("packages").Sub(b.tpath()).Sub("interfaces").Set("OnlyInTest", world.NewY())
+		}},
 		{Class: "load-error", Variant: "error-in-dependency", Unjudged: true, Levels: []string{""}, Apply: func(b *c09Base, _ string, _ *simrt.Plan) {
 			b.proj.Pkgs = append(b.proj.Pkgs, world.Pkg{Dir: "dep", Name: "dep", Files: []world.SrcFile{{Name: "dep.go", Extra: "type T struct{}\nvar _ int = T{}\n"}}})
 			q := b.tpkg()
@@ -403,6 +426,28 @@ func c09Faults() []c09Fault {
 		{Class: "valid", Variant: "external-test-package-present", Apply: func(b *c09Base, _ string, _ *simrt.Plan) {
 			q := b.tpkg()
 			b.proj.Aux[q.Dir+"/ext_test.go"] = "package " + q.Name + "_test\n\nimport \"testing\"\n\nfunc TestNothing(t *testing.T) {}\n"
+		}},
+		{Class: "valid", Variant: "null-package-entry-under-root-all", Apply: func(b *c09Base, _ string, _ *simrt.Plan) {
+			for i, q := range b.proj.Pkgs {
+				if i != b.target {
+					b.proj.Config.Set("all", true)
+					b.proj.Config.Sub("packages").Set(c09Mod+"/"+q.Dir, nil)
+					return
+				}
+			}
+		}},
+		{Class: "valid", Variant: "null-interface-entry", Apply: func(b *c09Base, _ string, _ *simrt.Plan) {
+			names := b.tpkg().AllIfaces(nil)
+			last := names[len(names)-1]
+			b.proj.Config.Sub("packages").Sub(b.tpath()).Sub("interfaces").Set(last, nil)
+		}},
+		{Class: "valid", Variant: "empty-configs-list", Apply: func(b *c09Base, _ string, _ *simrt.Plan) {
+			names := b.tpkg().AllIfaces(nil)
+			last := names[len(names)-1]
+			b.proj.Config.Sub("packages").Sub(b.tpath()).Sub("interfaces").Set(last, world.NewY().Set("configs", []any{}))
+		}},
+		{Class: "valid", Variant: "unexported-and-alias-declarations-present", Apply: func(b *c09Base, _ string, _ *simrt.Plan) {
+			b.tpkg().Files[0].Extra += "\ntype generic[T any] interface{ Get() T }\n\ntype intGetter = generic[int]\n\ntype lower interface{ m() }\n\ntype NotIface func(int) string\n\nvar _ intGetter\nvar _ lower\n"
 		}},
 		{Class: "valid", Variant: "gomod-module-tab", Apply: func(b *c09Base, _ string, _ *simrt.Plan) {
 			b.proj.GoModText = "module\t" + c09Mod + "\n" + world.GoModTail
